@@ -387,6 +387,21 @@ func finish(c *Check, rc *RunCtx, rep *Report, start time.Time) int {
 		}
 		return 2
 	}
+	if len(unknown) > 0 || len(knownHits) > 0 {
+		// full dump for triage (not evidence): every violation group with its first instance
+		type dumpGroup struct {
+			Key   string
+			Count int
+			First Found
+		}
+		var dump []dumpGroup
+		for _, key := range unknownOrder {
+			dump = append(dump, dumpGroup{key, unknown[key].n, unknown[key].first})
+		}
+		db, _ := json.MarshalIndent(dump, "", " ")
+		_ = os.MkdirAll(filepath.Join(VerifDir, ".build"), 0o755)
+		_ = os.WriteFile(filepath.Join(VerifDir, ".build", "last-"+c.ID+".json"), db, 0o644)
+	}
 	if len(unknown) > 0 {
 		for i, key := range unknownOrder {
 			g := unknown[key]
